@@ -11,6 +11,7 @@ from __future__ import annotations
 import os
 from collections import Counter
 
+from . import common
 from .common import Check, fmt_ints, fmt_matrix, kv
 
 THEOREMS = [
@@ -612,7 +613,23 @@ def check(ck: Check) -> None:
         "Instance constructor as modelled by C05 (Tsp.mkInstance); the instance's upper bound is the farthest-neighbour sum",
     ]
     ck.not_proved = []
-    ck.lean(["Props.C06"], THEOREMS)
+    modules, theorems = ["Props.C06"], list(THEOREMS)
+    # tie between source and model: lean/Gen/RevIfNotWorse.lean and RevIfHNotWorse.lean are regenerated from the CURRENT
+    # source of the two move kernels; Props/C06GenEA.lean / C06GenFEA.lean prove them equal to the hand-written models
+    # (final content of x and h included) for all inputs; one Props module per kernel
+    from .translate import loop2lean
+    ck.gen_begin()   # released at the end of ck.lean
+    for emit, mod, thm, what in (
+            (loop2lean.emit_rev_if_not_worse, "Props.C06GenEA", "C06Gen.rev_if_not_worse_eq_model", "rev_if_not_worse"),
+            (loop2lean.emit_rev_if_h_not_worse, "Props.C06GenFEA", "C06Gen.rev_if_h_not_worse_eq_model", "rev_if_h_not_worse")):
+        try:
+            emit(common.REPO, common.LEAN)
+            modules.append(mod)
+            theorems.append(thm)
+        except Exception as e:  # noqa: BLE001 - source outside the translatable subset: the obligation cannot be regenerated
+            ck.proof_failures.append(f"translator loop2lean: {what} is not translatable, the theorem {thm} could not be "
+                                     f"re-checked against the source: {e!r}")
+    ck.lean(modules, theorems)
     streams(ck)
 
 
